@@ -213,6 +213,8 @@ class Engine(Interp):
         p = ProcV(g, z3.Bool(fresh_name('triggered')))
         self.st.assume(z3.Not(p.triggered))     # S4: a process that has not run yet has not returned
         self.st.spawns.append((g, p, node))
+        if ('spawn:' + g.qual) not in self.used_contracts:
+            self.used_contracts.append('spawn:' + g.qual)
         for qual, pred, gname, elem in self.spec.spawn_ghosts:
             if g.qual == qual:
                 cnt, n = self.pending_ghost(gname)
@@ -692,6 +694,8 @@ class Engine(Interp):
         return SV(self, s, mapped)
 
     def apply_contract(self, c, fi, vals, node):
+        if not c.assumed and c.qual not in self.used_contracts:
+            self.used_contracts.append(c.qual)
         for p, v in c.fix.items():
             if p in vals and vals[p] != v:
                 self.oblige(f"pre:{c.qual}:fixed-param:{p}", 'pre', False, node)
@@ -703,6 +707,13 @@ class Engine(Interp):
             for nm, cl in c.requires(ctx):
                 if not nm.startswith('assume:'):
                     self.oblige(f"pre:{c.qual}@{site}:{nm}", 'pre', cl, node)
+                self.st.assume(hyp_of(cl))
+        if c.invariants is True and not c.assumed and not getattr(self, 'building', 0):
+            # the callee was verified assuming the class invariants of its receiver and the heap invariants on entry: they are
+            # obligations of the caller here (they are assumed again after the call only because the callee preserves them)
+            from .driver import invariant_clauses
+            for nm, cl in invariant_clauses(self.spec, self, old, dict(old._names)):
+                self.oblige(f"pre:{c.qual}@{site}:inv:{nm}", 'pre', cl, node)
                 self.st.assume(hyp_of(cl))
         # exceptional behaviours
         for exc, r in c.raises.items():
@@ -718,7 +729,7 @@ class Engine(Interp):
                             # the callee re-establishes its invariants on this exceptional exit too (its own obligation)
                             from .driver import invariant_clauses
                             nv = SV(self, self.st, vals)
-                            for nm, cl in invariant_clauses(self.spec, self, nv, {'self': vals.get('self')}):
+                            for nm, cl in invariant_clauses(self.spec, self, nv, dict(vals)):
                                 self.st.assume(hyp_of(cl))
                     raise RaiseSig(exc, node=node)
             else:
@@ -736,7 +747,7 @@ class Engine(Interp):
         if c.invariants and not c.assumed:
             # the callee preserves the class invariants of its world and the heap invariants
             from .driver import invariant_clauses
-            for nm, cl in invariant_clauses(self.spec, self, new, {'self': vals.get('self')}):
+            for nm, cl in invariant_clauses(self.spec, self, new, dict(vals)):
                 self.st.assume(hyp_of(cl))
         if c.assumed:
             self.note_assumed(c.qual)
@@ -862,8 +873,14 @@ class Engine(Interp):
             inner = spec.inv
             hinv = getattr(self.spec, 'heap_invariants', [])
 
-            def inv(cc, inner=inner, hinv=hinv):
+            world = 'world' in (spec.modifies or [])
+
+            def inv(cc, inner=inner, hinv=hinv, world=world):
                 out = list(inner(cc))
+                if world:
+                    # a loop that runs the event loop (havocs the world) keeps every class invariant of the actors
+                    from .driver import invariant_clauses
+                    out += invariant_clauses(self.spec, self, cc.n, dict(cc.n._names), heap=False)
                 for hi in hinv:
                     out += [(f"heap.{nm}", cl) for nm, cl in hi(cc.n)]
                 return out
